@@ -102,7 +102,7 @@ def check_c17(out, tier):
     return out.finish("exploration")
 
 
-def replay(path):
+def replay(path, intended=False):
     rp = json.load(open(path))
     fx = checks.fixture(rp["fixture"])
     exe = build.build(fx, rp.get("variant", "plain"))
@@ -112,7 +112,7 @@ def replay(path):
     n = 0
     for ln in rp["commands"]:
         first = ln.split()[0] if ln.split() else ""
-        if first in ("hook", "sel", "rank", "util", "rng", "slot", "log", "fill") or ln.startswith("#"):
+        if first in ("hook", "sel", "rank", "util", "rng", "slot", "log", "fill", "quiet") or ln.startswith("#"):
             ex.send(ln)
         else:
             if ex.call(ln) is None:
@@ -120,7 +120,7 @@ def replay(path):
                 break
             n += 1
     ex.close()
-    dd, res = explore.validate(fx, [tf], dev=checks.open_switches(), jobs=1)
+    dd, res = explore.validate(fx, [tf], dev=[] if intended else checks.open_switches(), jobs=1)
     bad = 0
     for r in res:
         if r["error"]:
